@@ -15,7 +15,19 @@ package streams
 // Known, tolerated difference (tag `begin-order`): /repo's Engine.Begin now reads the session
 // (sess.Transaction(), under s.mutex) BEFORE taking e.mutex; a model that still has the old order
 // (bCheck → bSessLock → bSessRead while holding e.mutex) disagrees only when one session is shared
-// by two actors.  Nothing in this table depends on the order: both are walked by `go` steps.
+// by two actors.  Nothing in this table depends on the order: both are walked by `go` steps.  The
+// translator recognises the old order by its signature (a model actor at bSessLock/bSessRead that
+// HOLDS e.mutex when a divergence is found in a shared-session scenario) and then tags the case
+// `begin-order` instead of reporting it; with the merged model (session read before e.mutex) the
+// signature cannot occur, so nothing is tolerated.
+//
+// Pass-through points.  begin.return, commit.return, abort.return and close.killed lie between an
+// effect other goroutines can observe (token released, e.txn assigned, tomb killed) and the unlock
+// that ends the critical section; the model takes effect+unlock as ONE step.  The controller
+// therefore never parks an actor there (it records the event and lets the actor run on), and the
+// step is placed at the first of sem.release / *.return (for Close: when the actor leaves
+// close.locked).  Parking there would let a second actor take the token while the model still
+// counts it as held.
 
 // pointRule describes one hook point.
 type pointRule struct {
@@ -83,16 +95,13 @@ var hookedAcq = map[string]bool{
 }
 
 // choicePcs are the pcs with an outcome choice other than "go".
-//   bAcquire: tok | cancel | dying | timeout   (event argument ok, cancel records, alive flag)
-//   cStore:   storeOk | storeFail | storePanic (fault injected with the release from commit.store)
-//   uCb:      cbWrite | cbNoop | cbErr | cbPanic (own transaction: from the hooks that follow:
-//             commit.locked+commit.store = write, commit.locked only = noop, abort.locked = err/panic)
-//   uCbSess, uCbRead: from the result of the call
+//
+//	bAcquire: tok | cancel | dying | timeout   (event argument ok, cancel records, alive flag)
+//	cStore:   storeOk | storeFail | storePanic (fault injected with the release from commit.store)
+//	uCb:      cbWrite | cbNoop | cbErr | cbPanic (own transaction: from the hooks that follow:
+//	          commit.locked+commit.store = write, commit.locked only = noop, abort.locked = err/panic)
+//	uCbSess, uCbRead: from the result of the call
 var choicePcs = map[string]bool{"bAcquire": true, "cStore": true, "uCb": true, "uCbSess": true, "uCbRead": true}
-
-// inSessMutexPcs: a divergence at one of these pcs in a scenario that shares a session is the known
-// `begin-order` difference.
-var beginOrderPcs = map[string]bool{"bSessLock": true, "bSessRead": true, "bCheck": true, "uSessLock": true, "uSessRead": true, "bLock": true}
 
 // modelRes maps the model's result names to the error classes of sched.Classify.
 func modelRes(r string) string {
